@@ -18,6 +18,10 @@
 (*              attempt's nor a registered session's (y = 1: while running, *)
 (*              y = 0: after shutdown completed; then also if only the      *)
 (*              harness-side end did not observe the close)                 *)
+(*   stale      x = a registered session whose connection is closed (at a   *)
+(*              settled point the registered set and the set of live        *)
+(*              sessions are compared by identity: leak = live, not         *)
+(*              registered; stale = registered, not live)                   *)
 (*   heal       with a reachable peer the pool did not return to N sessions *)
 (*              (x = size reached)                                          *)
 (*   shutdown   after cancellation the provider / manager did not report    *)
@@ -41,7 +45,7 @@ OnTable(e) ==
 
 SnapViol(e) ==
   LET tbl == SetOf(e.table)
-      attempt == IF e.loc \in {"dial", "sess", "ping"} THEN 1 ELSE 0
+      attempt == IF e.loc \in {"dial", "sess", "ping", "add"} THEN 1 ELSE 0
       settled == e.stuck = "" /\ e.loc # "run"
   IN (IF Cardinality(tbl) > n THEN {<<l, "livebound", Cardinality(tbl), n>>} ELSE {})
      \cup (IF e.stuck # "" /\ ~e.broken THEN {<<l, "progress", 0, 0>>} ELSE {})
@@ -49,6 +53,7 @@ SnapViol(e) ==
            THEN {<<l, "conserve", e.free, Cardinality(tbl)>>} ELSE {})
      \cup (IF settled /\ e.canAccept # (e.free > 0) THEN {<<l, "canacc", e.free, 0>>} ELSE {})
      \cup (IF e.running /\ settled THEN {<<l, "leak", c, 1>> : c \in {x \in SetOf(e.open) : x # e.held /\ x \notin tbl}} ELSE {})
+     \cup (IF settled THEN {<<l, "stale", c, 0>> : c \in tbl \ SetOf(e.open)} ELSE {})
 
 OnSnap(e) == FlagAll(SnapViol(e)) /\ UNCHANGED <<n, prev, removed, released>>
 OnHealed(e) ==
